@@ -134,7 +134,7 @@ Definition cp_decide_sound_stmt : Prop :=
     match cp_decide nl n with
     | CpKeep => True
     | CpConst c => r = c mod 2 ^ width_of nl (ndest n)
-    | CpWire w => r = v w
+    | CpWire w => r = v w /\ width_of nl w = 1 /\ width_of nl (ndest n) = 1 /\ In w (nargs n)
     | CpNot w => r = 1 - v w /\ width_of nl w = 1 /\ width_of nl (ndest n) = 1 /\ In w (nargs n)
     end.
 
